@@ -151,6 +151,7 @@ func famC12(r *Run) {
 		r.addSearch("G-conc-shared", pr[0], deepCopy(pristine), modeFor(pr[0], pristine))
 	}
 	famC12extra(r)
+	famConcFlatten(r)
 }
 
 // ---- C19 ----
